@@ -7,7 +7,27 @@ ids = [p["id"] for p in props]
 
 F1note = "'Accepted' is bound to the observed exit status. Inputs come from the finite choice sets of spec/PipelineMC.tla. The OpenAPI document is read by a plain JSON walk (harness/cmd/vcheck/openapi.go). One recording per (tree, tier, seed) is shared by the pipeline family and cached under .cache/ keyed by the content hash of the repository and of the machinery. Trusted: TLC, Json module, the concretiser/projector pair."
 F1tech = "TLA+ model (Project.tla + Pipeline.tla) checked with TLC; TLC-generated projects concretised and run through the real CLI; hook traces validated by TLC (PipelineTrace.tla)"
+F2NOTE = "Requests are served in-process (httptest; fiber app.Test with the recover middleware). The callback, controllers and recorder are user-side code generated next to the project. Outside the explored space: concrete paths a second same-verb template also matches, projects an engine refuses to register, routes without leading slash or with a placeholder glued to literal text, methods returning a custom error type by value, template overrides. One recording per (tree, tier, seed), cached. Trusted: TLC, token table, the driver generator."
+F2TECH = "TLA+ handler machine (Router.tla) model-checked with TLC; traces recorded from the five generated routers validated by TLC (RouterTrace.tla)"
 CLAIMED = {
+ "C02": dict(level="model_checking", design="DESIGN.md §3 C02, §10",
+   text="Served/DocumentedOps and the theorem 'documented is a subset of served, the difference is the hidden routes' are checked by TLC on Project/Pipeline; Router.tla's Dispatch is model-checked. On the code, the real generator produces the five engines' routers for TLC-generated projects, one driver binary serves every annotated verb/path (hidden ones included) and negative probes (other verbs, extra segments, unknown paths) through httptest, controllers record who was called, and TLC (RouterTrace.tla) judges each execution: the annotated method and no other is reached, un-annotated pairs reach nothing.",
+   note=F2NOTE, technique=F2TECH),
+ "C03": dict(level="model_checking", design="DESIGN.md §3 C03, §10",
+   text="Router.tla: AuthCheck/Refuse/ParseParam/Invoke with invariants gate-before-invoke, parse-after-gate, alternatives in order, all-refused => last refusal's status; model-checked over all scripts. On the code every approve/refuse script of the callback (all 2^n vectors) plus unauthorised+invalid requests are served on the five engines; the scripted, recording callback and controllers give the observed call sequence, which TLC compares with RunOf (effective security from Project.tla: method, else controller, else default).",
+   note=F2NOTE, technique=F2TECH),
+ "C05": dict(level="exploration", design="DESIGN.md §3 C05, §10",
+   text="Bind/Convert are a token table in Router.tla (per Go type: raw wire value, fits, canonical JSON of the converted value; boundary integers, unicode, URL-reserved characters, slices, enum, JSON bodies). For every handler every token of every parameter and absence is sent on the five engines; echoing controllers record the received arguments; TLC compares arguments, 422 rule and status with RunOf. Boundary tables, not all values: exploration.",
+   note=F2NOTE, technique=F2TECH),
+ "C09": dict(level="exploration", design="DESIGN.md §3 C09, §10",
+   text="Whenever `generate routes` exits 0 for a TLC-generated project and engine, the written package is compiled with go build against the engine, the user's controller packages and authorization package, and gofmt -l is recorded; the Go compiler is the oracle, the specification supplies the input space (names, packages, imported types, five engines).",
+   note=F2NOTE, technique="TLC-generated projects; real generator; go build of the generated package as measured event"),
+ "C12": dict(level="model_checking", design="DESIGN.md §3 C12, §10",
+   text="Router.tla has no engine variable. For every request of the C02/C03/C05 space the observable outcome (invoked method, arguments, status, JSON-normalised body) of the five engines' routers built from the same project is compared by TLC (Cmp events), and each engine's execution is individually accepted by RouterTrace.",
+   note=F2NOTE, technique=F2TECH),
+ "C20": dict(level="model_checking", design="DESIGN.md §3 C20, §10",
+   text="Config.tla models the configuration document (46 fields -> value tokens), RuleTable restates every validate: tag and custom validator, ExpectedOutputs the honoured-in-output facts; the session machine is model-checked (C20_ConfigFirst, C20_RejectedIsFinal, C20_OnlyValidProceeds, C20_Honoured). Every single-field corruption, optional-field subsets, engines x versions x permission strings x glob sets are emitted by TLC, run through the real CLI in fresh processes (hooks on) and judged: invalid => exit != 0, ConfigRejected before any PackagesLoad, empty fs delta, message names a field at fault; valid => exactly the configured files with expected mode, package, engine marker, version, info/servers/schemes and glob-selected controllers.",
+   note="String predicates (URL, e-mail, first-letter, existing directory) are token tables in the spec. The CLI runs under umask 0. Cross-references no tag declares are out of scope. Trusted: TLC, the concretiser.", technique="TLA+ model (Config.tla) checked with TLC; TLC-generated configuration documents run through the real CLI; hook-trace ordering rules"),
  "C06": dict(level="model_checking", design="DESIGN.md §3 C06, §10",
    text="ExpectedOperation (parameters in signature order with wire name/location/requiredness/schema, JSON or form body, success and error responses) is an operator of Project.tla over the method's signature and annotations; TLC generates methods over every single parameter kind/location/pointer-ness/alias/validator and pairs/triples of representatives, seven return shapes, error-response lists and @Response; the operations of both OpenAPI documents written by the real CLI are compared field by field with the expectation.",
    note=F1note, technique=F1tech),
